@@ -145,6 +145,12 @@ def harness_text(lw, fn, ghosts, hname):
 
 # --------------------------------------------------------------------------- job execution
 
+def safe_name(n):
+    for a, b in (('<=', 'le'), ('>=', 'ge'), ('==', 'eq'), ('!=', 'ne'), ('<', '_'), ('>', '_')):
+        pass
+    return re.sub(r'[^A-Za-z0-9_.-]', lambda m: '_%02x' % ord(m.group(0)) if m.group(0) in '<>=!&|+*/' else '_', n)
+
+
 class JobResult:
     def __init__(self, job):
         self.job = job
@@ -198,7 +204,7 @@ def run_job(job, unit, workdir, log=print):
     objbits, defines (cc -D), properties (restrict to cbmc property ids/regex)"""
     res = JobResult(job)
     t_start = time.time()
-    jd = os.path.join(workdir, re.sub(r'[^A-Za-z0-9_.-]', '_', job['name']))
+    jd = os.path.join(workdir, safe_name(job['name']))
     os.makedirs(jd, exist_ok=True)
     try:
         ast = get_ast(workdir, unit['driver'], unit.get('defines', ()))
